@@ -85,7 +85,7 @@ CHECKS.update({
          "spec level: all streams over a 7-message universe x chains x every header-byte corruption / truncation / hostile length; implementation level: all 17 types framed byte-exactly, every single-byte corruption and truncation of sampled frames, hostile lengths, multi-frame streams",
          TB + "; unknown command returns None after consuming exactly the frame (named deviation)", "DESIGN.md section 3 C18"),
  "C19": ("model_checking",
-         "Rpc.tla (call/reply protocol machine; exact decimal and reversed-hex codecs) model-checked by TLC over all call/reply histories <=3; recorded calls through an injected connection validated by TLC with the last request id as specification state (Trace_Rpc); spec -> code: every reply history of MC_RpcReplay (66^2 quick / 66^3 thorough) is scripted into a real Proxy and the outcome class of every call and the ids on the wire compared",
+         "Rpc.tla (call/reply protocol machine; exact decimal and reversed-hex codecs) model-checked by TLC over all call/reply/transport-fault histories <=3 (actions Call, Reply, Fault, Surface, Retry; ids judged over every request put on the wire); recorded calls through an injected connection validated by TLC with the last request id as specification state (Trace_Rpc); spec -> code: every reply / fault history of MC_RpcReplay (68^2 quick / 68^3 thorough) is scripted into a real Proxy and the outcome class of every call and the ids on the wire compared",
          "protocol histories exhaustive at spec level; every recorded amount (raw JSON token), hash, object and error outcome checked against the reference",
          TB + "; request bodies re-tokenised with Python's json hooks", "DESIGN.md section 3 C19"),
  "C20": ("model_checking",
